@@ -137,14 +137,20 @@ def norm : WF → WF
   | .dt f g => .dt f (normT g)
   | w => w
 
+/-- the date forms that combine with a time of day or a part of day: `YYYY-MM-DD`, `XXXX-MM-DD`, `XXXX-WXX-d` -/
+def Combinable : DateForm → Prop
+  | .date .. => True
+  | .openyear .. => True
+  | .weekday w => w.val ≠ 0
+  | _ => False
+
 /-- in-range fields, as far as the formatter depends on them: a year / open month that stands alone is not zero,
-a weekday is not zero.  Date + time combinations (`WF.dt`) are outside the theorems below — they are covered
-by the correspondence and the property oracles of the check only. -/
+a weekday is not zero; a time of day or part of day combines with full dates, open-year dates and weekdays. -/
 def InRange : WF → Prop
   | .d (.year y1 y2 y3 y4) => ¬ (y1.val = 0 ∧ y2.val = 0 ∧ y3.val = 0 ∧ y4.val = 0)
   | .d (.month m1 m2) => ¬ (m1.val = 0 ∧ m2.val = 0)
   | .d (.weekday w) => w.val ≠ 0
-  | .dt _ _ => False
+  | .dt f _ => Combinable f
   | _ => True
 
 section
@@ -330,6 +336,138 @@ theorem normT_idem (g : TimeForm) : normT (normT g) = normT g := by
 
 end
 
+/-! ## date + time combinations -/
+
+theorem parse_renderDT (cfg : Cfg) (hc : CfgOK cfg) (f : DateForm) (g : TimeForm) (hf : Combinable f) :
+    parse cfg (renderD f ++ renderT g) =
+      Timex.assign cfg.dv {} (dictMerge (extract cfg.dv cfg.date (renderD f)) (extract cfg.dv cfg.time (renderT g))) := by
+  cases f <;> simp only [Combinable] at hf <;> cases g <;> (try rename_i p; cases p) <;>
+    simp [parse, parseInto, extractDateTime, renderD, renderT, sPresentRef, indexOf, dch_ne, ne_dch, podStr]
+
+theorem format_parse_DT (cfg : Cfg) (hc : CfgOK cfg) (f : DateForm) (g : TimeForm) (hf : Combinable f) :
+    formatT (parse cfg (renderD f ++ renderT g)) = .ok (renderD f ++ renderT (normT g)) := by
+  have h88 : isDig cfg.dv 88 = false := by simp [isDig, hc.dv.2 88 (by decide)]
+  have h45 : isDig cfg.dv 45 = false := by simp [isDig, hc.dv.2 45 (by decide)]
+  have h87 : isDig cfg.dv 87 = false := by simp [isDig, hc.dv.2 87 (by decide)]
+  have h58 : isDig cfg.dv 58 = false := by simp [isDig, hc.dv.2 58 (by decide)]
+  rw [parse_renderDT cfg hc f g hf, hc.date, hc.time]
+  cases g
+  case pod p =>
+    cases f <;> simp only [Combinable] at hf <;> cases p <;>
+      (try (have hw : ¬ ((‹Dg›.val : Int) = 0) := by omega)) <;>
+      simp [extract, stdDate, stdTime, xxxx, seasons, partsOfDay, firstSome, matchItems, renderD, renderT,
+      isDig_dch cfg hc, startsWith, dch_ne, ne_dch, podStr, dictMerge, dictSet, Timex.assign, parseNatDv, dv_dch cfg hc,
+      h88, h45, h87, h58, Timex.setHour, Timex.setMinute, Timex.setSecond, formatT, formatFuel, infer, isDate,
+      isDateRange, isDuration, isTime, isDefinite, truthyO, truthyS, Num.truthy, formatDate, formatTime,
+      formatTimeRange, andChainNotNone, eq0, Num.eqInt, Num.scaled, pow10, Timex.hour, Timex.minute, Timex.second,
+      sXXXX, sWXX, normT, bind, Except.bind, pure, Except.pure, fixed2_dg', fixed4_dg', str1_dg', isDig, hc.dv.2, hf]
+  case h h1 h2 =>
+    cases f <;> simp only [Combinable] at hf <;>
+      simp [extract, stdDate, stdTime, xxxx, seasons, partsOfDay, firstSome, matchItems, renderD, renderT,
+      isDig_dch cfg hc, startsWith, dch_ne, ne_dch, podStr, dictMerge, dictSet, Timex.assign, parseNatDv, dv_dch cfg hc,
+      h88, h45, h87, h58, Timex.setHour, Timex.setMinute, Timex.setSecond, formatT, formatFuel, infer, isDate,
+      isDateRange, isDuration, isTime, isDefinite, truthyO, truthyS, Num.truthy, formatDate, formatTime,
+      formatTimeRange, andChainNotNone, eq0, Num.eqInt, Num.scaled, pow10, Timex.hour, Timex.minute, Timex.second,
+      sXXXX, sWXX, normT, bind, Except.bind, pure, Except.pure, fixed2_dg', fixed4_dg', str1_dg', isDig, hc.dv.2, hf]
+  case hm h1 h2 m1 m2 =>
+    by_cases hz : m1.val = 0 ∧ m2.val = 0
+    · have e1 : m1 = 0 := Fin.ext hz.1
+      have e2 : m2 = 0 := Fin.ext hz.2
+      subst e1 e2
+      cases f <;> simp only [Combinable] at hf <;>
+        simp [extract, stdDate, stdTime, xxxx, seasons, partsOfDay, firstSome, matchItems, renderD, renderT,
+      isDig_dch cfg hc, startsWith, dch_ne, ne_dch, podStr, dictMerge, dictSet, Timex.assign, parseNatDv, dv_dch cfg hc,
+      h88, h45, h87, h58, Timex.setHour, Timex.setMinute, Timex.setSecond, formatT, formatFuel, infer, isDate,
+      isDateRange, isDuration, isTime, isDefinite, truthyO, truthyS, Num.truthy, formatDate, formatTime,
+      formatTimeRange, andChainNotNone, eq0, Num.eqInt, Num.scaled, pow10, Timex.hour, Timex.minute, Timex.second,
+      sXXXX, sWXX, normT, bind, Except.bind, pure, Except.pure, fixed2_dg', fixed4_dg', str1_dg', isDig, hc.dv.2, hf]
+    · have hz' : ¬ (m1 = 0 ∧ m2 = 0) := fun h => hz ⟨by simp [h.1], by simp [h.2]⟩
+      have hne : ¬ ((m1.val : Int) * 10 + (m2.val : Int) = 0) := by omega
+      cases f <;> simp only [Combinable] at hf <;>
+        simp [extract, stdDate, stdTime, xxxx, seasons, partsOfDay, firstSome, matchItems, renderD, renderT,
+      isDig_dch cfg hc, startsWith, dch_ne, ne_dch, podStr, dictMerge, dictSet, Timex.assign, parseNatDv, dv_dch cfg hc,
+      h88, h45, h87, h58, Timex.setHour, Timex.setMinute, Timex.setSecond, formatT, formatFuel, infer, isDate,
+      isDateRange, isDuration, isTime, isDefinite, truthyO, truthyS, Num.truthy, formatDate, formatTime,
+      formatTimeRange, andChainNotNone, eq0, Num.eqInt, Num.scaled, pow10, Timex.hour, Timex.minute, Timex.second,
+      sXXXX, sWXX, normT, bind, Except.bind, pure, Except.pure, fixed2_dg', fixed4_dg', str1_dg', isDig, hc.dv.2, hf, hz', hne]
+  case hms h1 h2 m1 m2 s1 s2 =>
+    by_cases hs : s1.val = 0 ∧ s2.val = 0
+    · have e1 : s1 = 0 := Fin.ext hs.1
+      have e2 : s2 = 0 := Fin.ext hs.2
+      subst e1 e2
+      by_cases hz : m1.val = 0 ∧ m2.val = 0
+      · have e1 : m1 = 0 := Fin.ext hz.1
+        have e2 : m2 = 0 := Fin.ext hz.2
+        subst e1 e2
+        cases f <;> simp only [Combinable] at hf <;>
+          simp [extract, stdDate, stdTime, xxxx, seasons, partsOfDay, firstSome, matchItems, renderD, renderT,
+      isDig_dch cfg hc, startsWith, dch_ne, ne_dch, podStr, dictMerge, dictSet, Timex.assign, parseNatDv, dv_dch cfg hc,
+      h88, h45, h87, h58, Timex.setHour, Timex.setMinute, Timex.setSecond, formatT, formatFuel, infer, isDate,
+      isDateRange, isDuration, isTime, isDefinite, truthyO, truthyS, Num.truthy, formatDate, formatTime,
+      formatTimeRange, andChainNotNone, eq0, Num.eqInt, Num.scaled, pow10, Timex.hour, Timex.minute, Timex.second,
+      sXXXX, sWXX, normT, bind, Except.bind, pure, Except.pure, fixed2_dg', fixed4_dg', str1_dg', isDig, hc.dv.2, hf]
+      · have hz' : ¬ (m1 = 0 ∧ m2 = 0) := fun h => hz ⟨by simp [h.1], by simp [h.2]⟩
+        have hne : ¬ ((m1.val : Int) * 10 + (m2.val : Int) = 0) := by omega
+        cases f <;> simp only [Combinable] at hf <;>
+          simp [extract, stdDate, stdTime, xxxx, seasons, partsOfDay, firstSome, matchItems, renderD, renderT,
+      isDig_dch cfg hc, startsWith, dch_ne, ne_dch, podStr, dictMerge, dictSet, Timex.assign, parseNatDv, dv_dch cfg hc,
+      h88, h45, h87, h58, Timex.setHour, Timex.setMinute, Timex.setSecond, formatT, formatFuel, infer, isDate,
+      isDateRange, isDuration, isTime, isDefinite, truthyO, truthyS, Num.truthy, formatDate, formatTime,
+      formatTimeRange, andChainNotNone, eq0, Num.eqInt, Num.scaled, pow10, Timex.hour, Timex.minute, Timex.second,
+      sXXXX, sWXX, normT, bind, Except.bind, pure, Except.pure, fixed2_dg', fixed4_dg', str1_dg', isDig, hc.dv.2, hf, hz', hne]
+    · have hs' : ¬ (s1 = 0 ∧ s2 = 0) := fun h => hs ⟨by simp [h.1], by simp [h.2]⟩
+      have hne : ¬ ((s1.val : Int) * 10 + (s2.val : Int) = 0) := by omega
+      cases f <;> simp only [Combinable] at hf <;>
+        simp [extract, stdDate, stdTime, xxxx, seasons, partsOfDay, firstSome, matchItems, renderD, renderT,
+      isDig_dch cfg hc, startsWith, dch_ne, ne_dch, podStr, dictMerge, dictSet, Timex.assign, parseNatDv, dv_dch cfg hc,
+      h88, h45, h87, h58, Timex.setHour, Timex.setMinute, Timex.setSecond, formatT, formatFuel, infer, isDate,
+      isDateRange, isDuration, isTime, isDefinite, truthyO, truthyS, Num.truthy, formatDate, formatTime,
+      formatTimeRange, andChainNotNone, eq0, Num.eqInt, Num.scaled, pow10, Timex.hour, Timex.minute, Timex.second,
+      sXXXX, sWXX, normT, bind, Except.bind, pure, Except.pure, fixed2_dg', fixed4_dg', str1_dg', isDig, hc.dv.2, hf, hs', hne]
+
+/-- a date + time and its canonical form have the same field values -/
+theorem parse_norm_DT (cfg : Cfg) (hc : CfgOK cfg) (f : DateForm) (g : TimeForm) (hf : Combinable f) :
+    parse cfg (renderD f ++ renderT (normT g)) = parse cfg (renderD f ++ renderT g) := by
+  have h88 : isDig cfg.dv 88 = false := by simp [isDig, hc.dv.2 88 (by decide)]
+  have h45 : isDig cfg.dv 45 = false := by simp [isDig, hc.dv.2 45 (by decide)]
+  have h87 : isDig cfg.dv 87 = false := by simp [isDig, hc.dv.2 87 (by decide)]
+  have h58 : isDig cfg.dv 58 = false := by simp [isDig, hc.dv.2 58 (by decide)]
+  rw [parse_renderDT cfg hc f _ hf, parse_renderDT cfg hc f g hf, hc.date, hc.time]
+  cases g
+  case pod p => rfl
+  case h h1 h2 => rfl
+  case hm h1 h2 m1 m2 =>
+    by_cases hz : m1.val = 0 ∧ m2.val = 0
+    · have e1 : m1 = 0 := Fin.ext hz.1
+      have e2 : m2 = 0 := Fin.ext hz.2
+      subst e1 e2
+      cases f <;> simp only [Combinable] at hf <;>
+        simp [extract, stdDate, stdTime, xxxx, firstSome, matchItems, renderD, renderT, isDig_dch cfg hc, startsWith, dch_ne,
+        ne_dch, dictMerge, dictSet, Timex.assign, parseNatDv, dv_dch cfg hc, h88, h45, h87, h58, Timex.setHour,
+        Timex.setMinute, Timex.setSecond, normT, isDig, hc.dv.2]
+    · have hz' : ¬ (m1 = 0 ∧ m2 = 0) := fun h => hz ⟨by simp [h.1], by simp [h.2]⟩
+      simp [normT, hz']
+  case hms h1 h2 m1 m2 s1 s2 =>
+    by_cases hs : s1.val = 0 ∧ s2.val = 0
+    · have e1 : s1 = 0 := Fin.ext hs.1
+      have e2 : s2 = 0 := Fin.ext hs.2
+      subst e1 e2
+      by_cases hz : m1.val = 0 ∧ m2.val = 0
+      · have e1 : m1 = 0 := Fin.ext hz.1
+        have e2 : m2 = 0 := Fin.ext hz.2
+        subst e1 e2
+        cases f <;> simp only [Combinable] at hf <;>
+          simp [extract, stdDate, stdTime, xxxx, firstSome, matchItems, renderD, renderT, isDig_dch cfg hc, startsWith, dch_ne,
+        ne_dch, dictMerge, dictSet, Timex.assign, parseNatDv, dv_dch cfg hc, h88, h45, h87, h58, Timex.setHour,
+        Timex.setMinute, Timex.setSecond, normT, isDig, hc.dv.2]
+      · have hz' : ¬ (m1 = 0 ∧ m2 = 0) := fun h => hz ⟨by simp [h.1], by simp [h.2]⟩
+        cases f <;> simp only [Combinable] at hf <;>
+          simp [extract, stdDate, stdTime, xxxx, firstSome, matchItems, renderD, renderT, isDig_dch cfg hc, startsWith, dch_ne,
+        ne_dch, dictMerge, dictSet, Timex.assign, parseNatDv, dv_dch cfg hc, h88, h45, h87, h58, Timex.setHour,
+        Timex.setMinute, Timex.setSecond, normT, isDig, hc.dv.2, hz']
+    · have hs' : ¬ (s1 = 0 ∧ s2 = 0) := fun h => hs ⟨by simp [h.1], by simp [h.2]⟩
+      simp [normT, hs']
+
 /-! ## the property theorems -/
 
 theorem format_parse (cfg : Cfg) (hc : CfgOK cfg) (w : WF) (hr : InRange w) :
@@ -337,7 +475,7 @@ theorem format_parse (cfg : Cfg) (hc : CfgOK cfg) (w : WF) (hr : InRange w) :
   cases w with
   | d f => exact format_parse_D cfg hc f hr
   | t g => exact format_parse_T cfg hc g
-  | dt f g => exact absurd hr (by simp [InRange])
+  | dt f g => exact format_parse_DT cfg hc f g hr
   | present => simp [render, norm, parse, parseInto, formatT, formatFuel, infer, bind, Except.bind, pure, Except.pure]
 
 theorem parse_norm (cfg : Cfg) (hc : CfgOK cfg) (w : WF) (hr : InRange w) :
@@ -345,14 +483,14 @@ theorem parse_norm (cfg : Cfg) (hc : CfgOK cfg) (w : WF) (hr : InRange w) :
   cases w with
   | d f => rfl
   | t g => exact parse_normT cfg hc g
-  | dt f g => exact absurd hr (by simp [InRange])
+  | dt f g => exact parse_norm_DT cfg hc f g hr
   | present => rfl
 
 theorem inRange_norm (w : WF) (hr : InRange w) : InRange (norm w) := by
   cases w with
   | d f => exact hr
   | t g => simp [norm, InRange]
-  | dt f g => exact absurd hr (by simp [InRange])
+  | dt f g => exact hr
   | present => exact hr
 
 theorem norm_idem (w : WF) : norm (norm w) = norm w := by
@@ -390,10 +528,89 @@ theorem tree_roundtrip (w : WF) (hr : InRange w) :
   rw [h1] at h1'; cases h1'
   exact ⟨v, h1, h2, h3⟩
 
-/-- hypotheses are satisfiable: `2020-02-29`, `XXXX-WXX-3`, `T05:30:00` (canonical form `T05:30`) -/
+/-- hypotheses are satisfiable: `2020-02-29`, `XXXX-WXX-3`, `T05:30:00` (canonical form `T05:30`),
+`2020-02-29T05:30:00` (canonical form `2020-02-29T05:30`) -/
 example : InRange (.d (.date 2 0 2 0 0 2 2 9)) ∧ InRange (.d (.weekday 3)) ∧ InRange (.t (.hms 0 5 3 0 0 0)) ∧
-    render (norm (.t (.hms 0 5 3 0 0 0))) = [84, 48, 53, 58, 51, 48] := by
-  refine ⟨by simp [InRange], by simp [InRange], by simp [InRange], by decide⟩
+    render (norm (.t (.hms 0 5 3 0 0 0))) = [84, 48, 53, 58, 51, 48] ∧
+    InRange (.dt (.date 2 0 2 0 0 2 2 9) (.hms 0 5 3 0 0 0)) ∧
+    render (norm (.dt (.date 2 0 2 0 0 2 2 9) (.hms 0 5 3 0 0 0))) =
+      [50, 48, 50, 48, 45, 48, 50, 45, 50, 57, 84, 48, 53, 58, 51, 48] := by
+  refine ⟨by simp [InRange], by simp [InRange], by simp [InRange], by decide, by simp [InRange, Combinable], by decide⟩
+
+/-! ## durations with integer amounts -/
+
+inductive DUnit | Y | Mo | W | D | H | Mi | S
+def DUnit.isTime : DUnit → Bool
+  | .H | .Mi | .S => true
+  | _ => false
+def DUnit.ch : DUnit → Nat
+  | .Y => 89 | .Mo => 77 | .W => 87 | .D => 68 | .H => 72 | .Mi => 77 | .S => 83
+
+/-- `P<digits><unit>` / `PT<digits><unit>` -/
+def renderDur (u : DUnit) (digs : Str) : Str := 80 :: ((if u.isTime then [84] else []) ++ digs ++ [u.ch])
+
+/-- the duration field a unit sets -/
+def durFields (u : DUnit) (x : Num) : Timex := match u with
+  | .Y => { years := some x } | .Mo => { months := some x } | .W => { weeks := some x } | .D => { days := some x }
+  | .H => { hours := some x } | .Mi => { minutes := some x } | .S => { seconds := some x }
+
+/-- parsing a duration with an integer amount (any non-empty ASCII digit string, leading zeros allowed) sets exactly
+the unit's field to `Decimal(amount)` -/
+theorem parse_dur (cfg : Cfg) (hc : CfgOK cfg) (u : DUnit) (digs : Str) (hd : AsciiDigs digs) (hne : digs ≠ []) :
+    parse cfg (renderDur u digs) = durFields u (.dec false (parseNatDv cfg.dv digs) 0) := by
+  obtain ⟨d0, dt, rfl⟩ : ∃ d0 dt, digs = d0 :: dt := by
+    cases digs with
+    | nil => exact absurd rfl hne
+    | cons a r => exact ⟨a, r, rfl⟩
+  have h0 := hd d0 (by simp)
+  have n82 : ¬ (d0 = 82) := by omega
+  have n84 : ¬ (d0 = 84) := by omega
+  have hm : ∀ c, cfg.dv c = none → c ≠ 46 →
+      matchAmount cfg.dv (d0 :: (dt ++ [c])) = some (d0 :: dt, [c]) := by
+    intro c h1 h2
+    have := matchAmount_int hc.dv (d0 :: dt) c [] hd (by simp) h1 h2
+    simpa using this
+  have hT : matchAmount cfg.dv (84 :: d0 :: (dt ++ [72])) = none ∧ matchAmount cfg.dv (84 :: d0 :: (dt ++ [77])) = none ∧
+      matchAmount cfg.dv (84 :: d0 :: (dt ++ [83])) = none := by
+    refine ⟨?_, ?_, ?_⟩ <;> simp [matchAmount, takeDigits, isDig, hc.dv.2 84 (by decide)]
+  have hpd := parseDecimal_int hc.dv (d0 :: dt) hd
+  have e89 := hm 89 (hc.dv.2 89 (by decide)) (by decide)
+  have e77 := hm 77 (hc.dv.2 77 (by decide)) (by decide)
+  have e87 := hm 87 (hc.dv.2 87 (by decide)) (by decide)
+  have e68 := hm 68 (hc.dv.2 68 (by decide)) (by decide)
+  have e72 := hm 72 (hc.dv.2 72 (by decide)) (by decide)
+  have e83 := hm 83 (hc.dv.2 83 (by decide)) (by decide)
+  cases u <;>
+    simp [renderDur, DUnit.isTime, DUnit.ch, parse, parseInto, sPresentRef, extractDuration, extract, hc.period, stdPeriod,
+      firstSome, matchItems, startsWith, Timex.assign, Timex.assignDuration, dictGet, durFields, hpd, n82, n84,
+      e89, e77, e87, e68, e72, e83, hT, sY, sM, sW, sD, sH, sS]
+
+/-- a duration field with an integral `Decimal` prints as `P[T]<n><unit>` with the plain digits of `n` -/
+theorem format_dur (u : DUnit) (n : Nat) : formatT (durFields u (.dec false n 0)) = .ok (renderDur u (nstr n)) := by
+  cases u <;>
+    simp [durFields, renderDur, DUnit.isTime, DUnit.ch, formatT, formatFuel, infer, isDate, isDateRange, isDuration, isTime,
+      isDefinite, truthyO, truthyS, formatDuration, optStr, Num.str, decStr_int, bind, Except.bind, pure, Except.pure]
+
+/-- C14 **duration_int_roundtrip** — for all seven units and every integer amount written with any non-empty
+ASCII digit string `digs` (leading zeros allowed, zero included since fix b6d61daf1): `Timex(s).timex_value()` is the
+same duration with the amount in plain digits without leading zeros; that string parses to the same field values
+(`parse_format_fields`) and formats to itself (`format_idempotent`, `canonical_fixed`). -/
+theorem duration_int_roundtrip (cfg : Cfg) (hc : CfgOK cfg) (u : DUnit) (digs : Str) (hd : AsciiDigs digs)
+    (hne : digs ≠ []) :
+    let v := renderDur u (nstr (parseNatDv cfg.dv digs))
+    formatT (parse cfg (renderDur u digs)) = .ok v ∧ parse cfg v = parse cfg (renderDur u digs) ∧
+      formatT (parse cfg v) = .ok v := by
+  have h1 := parse_dur cfg hc u digs hd hne
+  have h2 := parse_dur cfg hc u (nstr (parseNatDv cfg.dv digs)) (nstr_ascii _) (nstr_ne_nil _)
+  rw [parseNatDv_nstr hc.dv] at h2
+  refine ⟨?_, ?_, ?_⟩
+  · rw [h1, format_dur]
+  · rw [h1, h2]
+  · rw [h2, format_dur]
+
+example : AsciiDigs [48, 48, 49, 48] ∧ renderDur .D [48, 48, 49, 48] = [80, 48, 48, 49, 48, 68] ∧
+    renderDur .Mi (nstr 90) = [80, 84, 57, 48, 77] := by
+  refine ⟨by intro c hc; simp at hc; omega, by decide, by decide⟩
 
 /-! ## durations and the recorded / repaired defects -/
 
